@@ -183,4 +183,66 @@ theorem ofCheck_cases (o : Option Bool) :
   | none => simp [Out.ofCheck]
   | some b => cases b <;> simp [Out.ofCheck]
 
+/-! ### the decision procedure of the specification -/
+
+theorem subB_spec {H : Hier} (hd : NoDangling H) {a b : Name} {r : Bool} (h : subB H a b = some r) :
+    r = true ↔ Sub H a b := by
+  unfold subB at h
+  by_cases hab : a = b
+  · rw [if_pos hab] at h; cases h; simp [hab, Sub.refl]
+  · rw [if_neg hab] at h
+    cases hw : chainHas H b (fuel H) (extOf H a) with
+    | fuel => rw [hw] at h; cases h
+    | yes =>
+      rw [hw] at h; cases h
+      obtain ⟨x, hx, hs⟩ := chainHas_yes _ _ hw
+      simp only [true_iff]
+      exact Sub.step hx hs
+    | missing => exact absurd hw (chainHas_not_missing hd _ _ (fun x hx => hd a x hx))
+    | no =>
+      rw [hw] at h; cases h
+      constructor
+      · intro hf; cases hf
+      · intro hs
+        obtain ⟨p, hp, hsp⟩ := Sub.cases_ne hs hab
+        exact absurd hsp (chainHas_no _ _ hw p hp)
+
+theorem relatedB_spec {H : Hier} (hd : NoDangling H) {a b : Name} {r : Bool} (h : relatedB H a b = some r) :
+    r = true ↔ Related H a b := by
+  unfold relatedB at h
+  cases h1 : subB H a b with
+  | none => rw [h1] at h; cases h
+  | some x =>
+    rw [h1] at h
+    cases x with
+    | true => cases h; simp only [true_iff]; exact Or.inl ((subB_spec hd h1).mp rfl)
+    | false =>
+      simp only [] at h
+      have n1 : ¬ Sub H a b := fun hs => by have := (subB_spec hd h1).mpr hs; cases this
+      rw [subB_spec hd h]
+      constructor
+      · intro hs; exact Or.inr hs
+      · intro hr; cases hr with
+        | inl h' => exact absurd h' n1
+        | inr h' => exact h'
+
+theorem allowedB_spec {H : Hier} (hd : NoDangling H) {m : Mod} {caller : Option Name} {decl : Name} {r : Bool}
+    (h : allowedB H m caller decl = some r) : r = true ↔ allowed H m caller decl := by
+  cases m with
+  | pub => simp [allowedB] at h; simp [allowed, h]
+  | priv =>
+    simp only [allowedB, Option.some.injEq] at h
+    subst h
+    simp [allowed]
+  | prot =>
+    cases caller with
+    | none =>
+      simp only [allowedB, Option.some.injEq] at h
+      subst h
+      simp [allowed]
+    | some c =>
+      simp only [allowedB] at h
+      rw [relatedB_spec hd h]
+      simp [allowed]
+
 end Proofs.Access
